@@ -150,16 +150,16 @@ Proof. unfold attain. intros H1 H2. apply Forall2_app; auto. Qed.
 (** * One row of the forward propagation *)
 
 Section Step.
-  Variables (mn mx mnext : Z).
+  Variables (mn mx mnext : Z) (Rn : Q).
 
   (* the prefix can still reach min and has not exceeded max / has exceeded max *)
   Definition condn (j : Z) : bool := (mn <=? j + mnext)%Z && (j <=? mx)%Z.
   Definition condb (j : Z) : bool := (mn <=? j + mnext)%Z && (mx <? j)%Z.
 
   Lemma step_cell_cases k v (m : fmap (T:=Q)) b c bq :
-    step_cell NumQ mn mx mnext k v (m, b) (c, bq) =
+    step_cell NumQ mn mx mnext Rn k v (m, b) (c, bq) =
     if condn (k + c) then (fm_add NumQ (k + c)%Z (v * bq) m, b)
-    else if condb (k + c) then (m, b + v * bq) else (m, b).
+    else if condb (k + c) then (m, b + v * bq * Rn) else (m, b).
   Proof.
     unfold step_cell, condn, condb. cbn [fst snd NumQ n_mul n_add].
     rewrite Z.geb_leb, Z.gtb_ltb.
@@ -168,9 +168,9 @@ Section Step.
   Qed.
 
   Lemma cells_fold k v r : forall (m : fmap (T:=Q)) b m' b',
-    fold_left (step_cell NumQ mn mx mnext k v) r (m, b) = (m', b') ->
+    fold_left (step_cell NumQ mn mx mnext Rn k v) r (m, b) = (m', b') ->
     (forall psi, meas m' psi == meas m psi + v * push r (fun j => ind (condn j) * psi j) k) /\
-    b' == b + v * push r (fun j => ind (condb j)) k /\
+    b' == b + v * push r (fun j => ind (condb j)) k * Rn /\
     (sorted m -> sorted m') /\
     (forall j, In j (keys m') <->
                In j (keys m) \/ exists cb, In cb r /\ j = (k + fst cb)%Z /\ condn j = true).
@@ -223,10 +223,10 @@ Section Step.
   Proof. unfold meas. cbn [map Qsum fst snd]. reflexivity. Qed.
 
   Lemma rows_fold r : forall cur (m : fmap (T:=Q)) b m' b',
-    fold_left (fun st kv => fold_left (step_cell NumQ mn mx mnext (fst kv) (snd kv)) r st) cur (m, b)
+    fold_left (fun st kv => fold_left (step_cell NumQ mn mx mnext Rn (fst kv) (snd kv)) r st) cur (m, b)
       = (m', b') ->
     (forall psi, meas m' psi == meas m psi + meas cur (push r (fun j => ind (condn j) * psi j))) /\
-    b' == b + meas cur (push r (fun j => ind (condb j))) /\
+    b' == b + meas cur (push r (fun j => ind (condb j))) * Rn /\
     (sorted m -> sorted m') /\
     (forall j, In j (keys m') <->
                In j (keys m) \/
@@ -236,7 +236,7 @@ Section Step.
     - inversion H; subst. split; [intros psi; unfold meas; cbn [map Qsum]; lra|].
       split; [unfold meas; cbn [map Qsum]; lra|]. split; [auto|]. intros j. split; [auto|]. intros [Hj|[kv [cb [[] _]]]]. exact Hj.
     - cbn [fst snd] in H.
-      destruct (fold_left (step_cell NumQ mn mx mnext k v) r (m, b)) as [m1 b1] eqn:E1.
+      destruct (fold_left (step_cell NumQ mn mx mnext Rn k v) r (m, b)) as [m1 b1] eqn:E1.
       destruct (cells_fold _ _ _ _ _ _ _ E1) as [C1 [C2 [C3 C4]]].
       destruct (IH _ _ _ _ H) as [I1 [I2 [I3 I4]]].
       split; [|split; [|split]].
